@@ -110,8 +110,8 @@ def call_guarded(fn: Callable[..., Outcome], case: Any, *more: Any) -> Outcome:
 
         frames = _tb.extract_tb(e.__traceback__)
         owner = next((f for f in reversed(frames)
-                      if f.filename.startswith(("/verif/", "/repo/src/"))), None)
-        if owner is None or not owner.filename.startswith("/repo/src/"):
+                      if os.path.realpath(f.filename).startswith((H.VERIF_ROOT, H.REPO_SRC))), None)
+        if owner is None or not os.path.realpath(owner.filename).startswith(H.REPO_SRC):
             raise
         out = Outcome()
         out.ok = False
